@@ -26,6 +26,78 @@ def body_loop(src, rel, cls, fn, size_name):
     return cond
 
 
+def consume_loop(src):
+    """`Channel.start_consuming`: the order, inside one iteration of its loop, of
+         read   - the consumer tags are looked at (value kept),
+         drain  - process_data_events() hands over what is queued,
+         exit?  - the loop ends if the last value read said that no consumer is left.
+    Anything else in the loop (other than sleeping and logging) is an extraction failure."""
+    f = src.func('channel.py', 'Channel', 'start_consuming')
+    loops = [st for st in strip_doc(f.body) if isinstance(st, ast.While)]
+    if len(loops) != 1:
+        raise ExtractError('start_consuming: expected exactly one while loop')
+    w = loops[0]
+    prog = []
+    locals_ = set()
+
+    def reads_tags(e):
+        return any(isinstance(n, ast.Attribute) and n.attr in ('consumer_tags', '_consumer_tags') for n in ast.walk(e))
+
+    def uses_local(e):
+        return any(isinstance(n, ast.Name) and n.id in locals_ for n in ast.walk(e))
+
+    def negated(e):
+        return isinstance(e, ast.UnaryOp) and isinstance(e.op, ast.Not)
+    # loop head: `not self.is_closed`, possibly `self.consumer_tags and not self.is_closed`
+    head = w.test.values if isinstance(w.test, ast.BoolOp) and isinstance(w.test.op, ast.And) else [w.test]
+    for h in head:
+        if reads_tags(h):
+            if negated(h):
+                raise ExtractError('start_consuming: loop head tests the tags negated')
+            prog += ['read', 'exit?']
+        elif ast.unparse(h) != 'not self.is_closed':
+            raise ExtractError('start_consuming: unexpected loop test %r' % ast.unparse(h))
+    body = [st for st in w.body if not is_logging(st)]
+    i = 0
+    while i < len(body):
+        st = body[i]
+        src_txt = ast.unparse(st)
+        if isinstance(st, ast.Assign) and len(st.targets) == 1 and isinstance(st.targets[0], ast.Name) and reads_tags(st.value):
+            if negated(st.value):
+                raise ExtractError('start_consuming: tags sampled negated')
+            locals_.add(st.targets[0].id)
+            prog.append('read')
+        elif isinstance(st, ast.Expr) and isinstance(st.value, ast.Call) and src_txt.startswith('self.process_data_events('):
+            prog.append('drain')
+        elif isinstance(st, ast.Expr) and src_txt.startswith('time.sleep('):
+            pass
+        elif isinstance(st, ast.If) and (reads_tags(st.test) or uses_local(st.test)) and not negated(st.test):
+            # `if <tags>: sleep; continue` followed by `break`, or `if <tags>: sleep; continue` `else: break`
+            inner = [x for x in st.body if not is_logging(x)]
+            ok_then = [ast.unparse(x).split('(')[0] for x in inner] in (['time.sleep', 'continue'], ['continue'])
+            nxt = body[i + 1] if i + 1 < len(body) else None
+            ok_else = (len(st.orelse) == 1 and isinstance(st.orelse[0], ast.Break)) or \
+                (not st.orelse and isinstance(nxt, ast.Break))
+            if not (ok_then and ok_else):
+                raise ExtractError('start_consuming: unexpected shape of the consumer test: %r' % src_txt[:80])
+            if reads_tags(st.test):
+                prog.append('read')
+            prog.append('exit?')
+            if not st.orelse:
+                i += 1
+        elif isinstance(st, ast.If) and (reads_tags(st.test) or uses_local(st.test)) and negated(st.test):
+            inner = [x for x in st.body if not is_logging(x)]
+            if not (len(inner) == 1 and isinstance(inner[0], ast.Break)):
+                raise ExtractError('start_consuming: unexpected shape of the consumer test: %r' % src_txt[:80])
+            if reads_tags(st.test):
+                prog.append('read')
+            prog.append('exit?')
+        else:
+            raise ExtractError('start_consuming: unexpected statement in the loop: %r' % src_txt[:80])
+        i += 1
+    return prog
+
+
 def gen(src, consts):
     g = body_loop(src, 'basic.py', 'Basic', '_get_content_body', 'body_size')
     b = body_loop(src, 'channel.py', 'Channel', '_build_message_body', 'body_size')
@@ -51,7 +123,10 @@ def gen(src, consts):
             'def buildBodyContinues (bodyLen size : Int) : Bool := decide %s\n'
             '/-- `Channel._build_message` does nothing unless at least this many frames are queued (`len(self._inbound) < n`) -/\n'
             'def buildStartNeeds : Nat := %d\n'
-            'end Amqp.Gen.Loops\n' % (g, b, need))
+            '/-- `Channel.start_consuming`: one iteration of its loop as the order of `read` (look at the consumer tags), '
+            '`drain` (process_data_events) and `exit?` (leave if the last look found no consumer) -/\n'
+            'def consumeLoop : List String := [%s]\n'
+            'end Amqp.Gen.Loops\n' % (g, b, need, ', '.join('"%s"' % x for x in consume_loop(src))))
 
 
 FILES = {'Loops.lean': gen}
